@@ -73,7 +73,7 @@ Theorem C13_misordered_dropped_only :
     /\ (misordered offO offD year s = false ->
         schedule offO offD year s =
         map (instance offO offD s) (expand (effective_from year s) (effective_to year s) (s_days s))).
-Proof. intros. split; [apply misordered_iff | apply schedule_all_when_ordered]. Qed.
+Proof. exact misordered_dropped_only. Qed.
 Print Assumptions C13_misordered_dropped_only.
 
 (* rows are skipped exactly when a documented reason holds, and the reported reason is a true one *)
@@ -83,9 +83,7 @@ Theorem C13_skip_iff_documented_reason :
      <-> (exists k, reason_holds geod fl excl r ko kd o d miles k))
     /\ (forall k, import_row offO offD geod fl excl year r ko kd o d miles s = Skipped k ->
                   reason_holds geod fl excl r ko kd o d miles k).
-Proof.
-  intros. split; [apply skipped_iff_reason | intros k; apply skipped_reason_holds].
-Qed.
+Proof. exact skip_iff_documented_reason. Qed.
 Print Assumptions C13_skip_iff_documented_reason.
 
 (* a valid row between known airports whose stated distance is within max(50 km, 10 %) of the geodesic
